@@ -180,6 +180,31 @@ pub fn run_case(voc: &concretise::Vocab, case: &Value, dump: Option<&str>) -> Ve
                                    "same": d2 == base, "base_read": g.read_outcome}).to_string());
             }
         }
+        "lex" => {
+            // generate, then classify where each probe's marker landed in the emitted text
+            let ftr = build_files(&files, None, &start);
+            let g = generate(&ftr, 1, false);
+            for e in &g.events {
+                if e.contains("\"ev\":\"ret\"") {
+                    events.push(e.clone());
+                }
+            }
+            if let Some(t) = &g.text {
+                let text = String::from_utf8_lossy(t).to_string();
+                let parses = syn::parse_file(&text).is_ok();
+                let mut probes = vec![];
+                for p in case["probes"].as_array().cloned().unwrap_or_default() {
+                    let original = voc.text(p["text"].as_str().unwrap_or(""));
+                    let marker = p["marker"].as_str().unwrap_or("ZVMK");
+                    let occ = crate::lexer::classify(&text, marker, &original);
+                    probes.push(json!({"site": p["site"], "cls": p["cls"], "src": p["src"], "occ": occ}));
+                }
+                events.push(json!({"ev":"lexed","write":g.write_outcome,"parses":parses,"probes":probes}).to_string());
+                if let Some(d) = dump {
+                    let _ = std::fs::write(format!("{d}/{}/out.rs", id), t);
+                }
+            }
+        }
         "cli" => {
             events.extend(crate::cli::run(case));
         }
